@@ -7,4 +7,5 @@ use crate::verif_common::kani;
 use crate::verif_common::*;
 
 crate::verif_common::registry! {
+   
 }
